@@ -145,6 +145,16 @@ static void viol(const char *kind, uint64_t idx, int len, const uint8_t *ma, int
 /* one evaluation.  The harness code itself is not instrumented (speed); the function under test is
  * (gcc does not inline across differing sanitize attributes). */
 #define NOSAN __attribute__((no_sanitize("address", "undefined"), noinline))
+
+/* Make reads of uninitialised stack deterministic: the region the function under test is about to use
+ * (locals and the VLA) holds 0xA5 in every octet, in enum and in single mode alike. */
+NOSAN static void poison_stack(void)
+{
+	uint8_t buf[24576];
+	memset(buf, 0xA5, sizeof(buf));
+	__asm__ volatile("" : : "r"(buf) : "memory");	/* keep the stores */
+}
+
 NOSAN static void run_case(uint64_t idx, int len, const uint8_t *ma, int si4, int bg, int dump, int first_variant)
 {
 	uint16_t want[80];
@@ -198,6 +208,7 @@ NOSAN static void run_case(uint64_t idx, int len, const uint8_t *ma, int si4, in
 	}
 
 	/* ---- act: the tree's function ---------------------------------------------------------- */
+	poison_stack();
 	rc = gsm48_decode_mobile_alloc(freq, ma_blk[len], (uint8_t)len, hopping, hopp_len, si4);
 	n = *hopp_len;
 	P->cur_valid = 0;
@@ -243,16 +254,20 @@ NOSAN static void run_case(uint64_t idx, int len, const uint8_t *ma, int si4, in
 	if (dump) {
 		char h[40], g[600];
 		unsigned hoppsum = 0, othersum = 0;
+		int touched = 0;
 		for (i = 0; i < 1024; i++) {
 			uint8_t m = ((uint8_t *)freq)[i];
 			if (m & FREQ_TYPE_HOPP) hoppsum += i + 1;
 			othersum = othersum * 31u + (uint8_t)((m ^ base[bg][i]) & (uint8_t)~FREQ_TYPE_HOPP);
+			if (m != base[bg][i]) touched = 1;
 		}
+		for (i = 0; i < 64; i++) if (hopping[i] != 0xA5A5) touched = 1;
 		hexs(h, ma, len);
 		lists(g, hopping, (rc == 0 && n <= 64) ? n : 0);
 		P->cnt[K_DUMPED]++;
-		printf("R %llu %d %s %d %d %d %d %s %u %u %d\n", (unsigned long long)idx, len, h, si4, bg, rc,
-		       rc == 0 ? n : -1, g, hoppsum, othersum, case_flagged);
+		/* R idx len ma si4 bg rc *hopp_len list hoppsum othersum touched driver-verdict */
+		printf("R %llu %d %s %d %d %d %d %s %u %u %d %d\n", (unsigned long long)idx, len, h, si4, bg, rc,
+		       n, g, hoppsum, othersum, touched, case_flagged);
 	}
 }
 
